@@ -1235,12 +1235,29 @@ func c10CheckFloatParse(c *Ctx, b *c10Batch, lit string) {
 			c.Violate("float-misrounded", "json.Unmarshal/float32", input, map[string]any{"literal": trunc(lit, 200), "got": math.Float32bits(f32), "want": math.Float32bits(w32), "err": fmt.Sprint(e32)})
 		}
 	}
-	// quoted form (`string` option) takes the same path after ConsumeNumber
-	var q64 float64
-	qerr := json.Unmarshal([]byte(`"`+lit+`"`), &q64, json.StringifyNumbers(true))
-	if (qerr == nil) != (e64 == nil) || (qerr == nil && math.Float64bits(q64) != math.Float64bits(f64)) {
-		c.Violate("float-quoted-differs", "json.Unmarshal/float64/StringifyNumbers", input, map[string]any{"literal": trunc(lit, 200), "quoted": math.Float64bits(q64), "bare": math.Float64bits(f64), "qerr": fmt.Sprint(qerr), "err": fmt.Sprint(e64)})
+	// every other route by which a JSON number reaches a float destination must give the same single rounding
+	for _, rt := range c10FloatRoutes {
+		var bits uint64
+		var err error
+		var in []byte
+		if p := guard(func() { bits, in, err = rt.run(lit) }); p != nil {
+			c.Panic("json.Unmarshal/"+rt.name, []byte(lit), p, nil)
+			continue
+		}
+		want, inf := math.Float64bits(w64), math.IsInf(w64, 0)
+		if rt.is32 {
+			want, inf = uint64(math.Float32bits(w32)), math.IsInf(float64(w32), 0)
+		}
+		switch {
+		case inf:
+			if err == nil || !errors.Is(err, strconv.ErrRange) {
+				c.Violate("float-overflow-accepted", "json.Unmarshal/"+rt.name, in, map[string]any{"literal": trunc(lit, 200), "got": bits, "err": fmt.Sprint(err)})
+			}
+		case err != nil || bits != want:
+			c.Violate("float-misrounded", "json.Unmarshal/"+rt.name, in, map[string]any{"literal": trunc(lit, 200), "got": bits, "want": want, "err": fmt.Sprint(err)})
+		}
 	}
+	c.HitN("floatparse/routes", int64(len(c10FloatRoutes)))
 	// the Lean specification of correct rounding agrees as well (third implementation)
 	g64 := fmt.Sprintf("%d", math.Float64bits(w64))
 	g32 := fmt.Sprintf("%d", math.Float32bits(w32))
@@ -1255,6 +1272,226 @@ func c10CheckFloatParse(c *Ctx, b *c10Batch, lit string) {
 			c.Violate("corr-parsefloat-spec", "math/big.Rat.Float32 vs Lean parseFloatExact", input, map[string]any{"big": g32, "lean": ans})
 		}
 	})
+}
+
+// c10FloatRoute is one way a JSON number literal reaches a float destination.
+type c10FloatRoute struct {
+	name string
+	is32 bool
+	run  func(lit string) (bits uint64, input []byte, err error)
+}
+
+type c10F32 float32
+type c10F64 float64
+
+func c10b32(f float32) uint64 { return uint64(math.Float32bits(f)) }
+func c10b64(f float64) uint64 { return math.Float64bits(f) }
+
+var errC10Shape = errors.New("harness: unexpected shape of the unmarshaled value")
+
+var c10FloatRoutes = []c10FloatRoute{
+	{"*float32", true, func(lit string) (uint64, []byte, error) {
+		var p *float32
+		in := []byte(lit)
+		if err := json.Unmarshal(in, &p); err != nil || p == nil {
+			return 0, in, c10or(err)
+		}
+		return c10b32(*p), in, nil
+	}},
+	{"*float64", false, func(lit string) (uint64, []byte, error) {
+		var p *float64
+		in := []byte(lit)
+		if err := json.Unmarshal(in, &p); err != nil || p == nil {
+			return 0, in, c10or(err)
+		}
+		return c10b64(*p), in, nil
+	}},
+	{"any", false, func(lit string) (uint64, []byte, error) {
+		var a any
+		in := []byte(lit)
+		if err := json.Unmarshal(in, &a); err != nil {
+			return 0, in, err
+		}
+		f, ok := a.(float64)
+		if !ok {
+			return 0, in, errC10Shape
+		}
+		return c10b64(f), in, nil
+	}},
+	{"named-float32", true, func(lit string) (uint64, []byte, error) {
+		var f c10F32
+		in := []byte(lit)
+		err := json.Unmarshal(in, &f)
+		return c10b32(float32(f)), in, err
+	}},
+	{"named-float64", false, func(lit string) (uint64, []byte, error) {
+		var f c10F64
+		in := []byte(lit)
+		err := json.Unmarshal(in, &f)
+		return c10b64(float64(f)), in, err
+	}},
+	{"[]float32", true, func(lit string) (uint64, []byte, error) {
+		var v []float32
+		in := []byte("[" + lit + "]")
+		if err := json.Unmarshal(in, &v); err != nil || len(v) != 1 {
+			return 0, in, c10or(err)
+		}
+		return c10b32(v[0]), in, nil
+	}},
+	{"[1]float64", false, func(lit string) (uint64, []byte, error) {
+		var v [1]float64
+		in := []byte("[" + lit + "]")
+		err := json.Unmarshal(in, &v)
+		return c10b64(v[0]), in, err
+	}},
+	{"struct-field-float32", true, func(lit string) (uint64, []byte, error) {
+		var v struct{ V float32 }
+		in := []byte(`{"V":` + lit + `}`)
+		err := json.Unmarshal(in, &v)
+		return c10b32(v.V), in, err
+	}},
+	{"map[string]float32-value", true, func(lit string) (uint64, []byte, error) {
+		var v map[string]float32
+		in := []byte(`{"k":` + lit + `}`)
+		if err := json.Unmarshal(in, &v); err != nil || len(v) != 1 {
+			return 0, in, c10or(err)
+		}
+		return c10b32(v["k"]), in, nil
+	}},
+	{"map[float32]int-key", true, func(lit string) (uint64, []byte, error) {
+		var v map[float32]int
+		in := []byte(`{"` + lit + `":0}`)
+		if err := json.Unmarshal(in, &v); err != nil || len(v) != 1 {
+			return 0, in, c10or(err)
+		}
+		for k := range v {
+			return c10b32(k), in, nil
+		}
+		return 0, in, errC10Shape
+	}},
+	{"map[float64]int-key", false, func(lit string) (uint64, []byte, error) {
+		var v map[float64]int
+		in := []byte(`{"` + lit + `":0}`)
+		if err := json.Unmarshal(in, &v); err != nil || len(v) != 1 {
+			return 0, in, c10or(err)
+		}
+		for k := range v {
+			return c10b64(k), in, nil
+		}
+		return 0, in, errC10Shape
+	}},
+	{"float32,string-tag", true, func(lit string) (uint64, []byte, error) {
+		var v struct {
+			V float32 `json:",string"`
+		}
+		in := []byte(`{"V":"` + lit + `"}`)
+		err := json.Unmarshal(in, &v)
+		return c10b32(v.V), in, err
+	}},
+	{"float64,string-tag", false, func(lit string) (uint64, []byte, error) {
+		var v struct {
+			V float64 `json:",string"`
+		}
+		in := []byte(`{"V":"` + lit + `"}`)
+		err := json.Unmarshal(in, &v)
+		return c10b64(v.V), in, err
+	}},
+	{"float32/StringifyNumbers", true, func(lit string) (uint64, []byte, error) {
+		var f float32
+		in := []byte(`"` + lit + `"`)
+		err := json.Unmarshal(in, &f, json.StringifyNumbers(true))
+		return c10b32(f), in, err
+	}},
+	{"float64/StringifyNumbers", false, func(lit string) (uint64, []byte, error) {
+		var f float64
+		in := []byte(`"` + lit + `"`)
+		err := json.Unmarshal(in, &f, json.StringifyNumbers(true))
+		return c10b64(f), in, err
+	}},
+	{"float32/UnmarshalRead", true, func(lit string) (uint64, []byte, error) {
+		var f float32
+		in := []byte(" " + lit + "\n")
+		err := json.UnmarshalRead(bytes.NewReader(in), &f)
+		return c10b32(f), in, err
+	}},
+	{"float32/UnmarshalDecode", true, func(lit string) (uint64, []byte, error) {
+		var v [2]float32
+		in := []byte("[" + lit + ", " + lit + "]")
+		err := json.UnmarshalDecode(jsontext.NewDecoder(bytes.NewReader(in)), &v)
+		if err == nil && math.Float32bits(v[0]) != math.Float32bits(v[1]) {
+			return c10b32(v[1]), in, errC10Shape
+		}
+		return c10b32(v[0]), in, err
+	}},
+}
+
+func c10or(err error) error {
+	if err != nil {
+		return err
+	}
+	return errC10Shape
+}
+
+// c10Spellings returns spellings of the same rational as the integer n (sign included):
+// plain integer, with a zero fraction, scientific with the point after the first digit,
+// scaled up with a negative exponent, and scaled down below one with a positive exponent.
+func c10Spellings(n *big.Int) []string {
+	sign := ""
+	a := new(big.Int).Abs(n)
+	if n.Sign() < 0 {
+		sign = "-"
+	}
+	d := a.String()
+	out := []string{sign + d, sign + d + ".0", sign + d + "e0", sign + d + "000E-3", sign + "0." + d + "e+" + strconv.Itoa(len(d))}
+	if len(d) > 1 {
+		out = append(out, sign+d[:1]+"."+d[1:]+"e"+strconv.Itoa(len(d)-1), sign+d[:len(d)-1]+"."+d[len(d)-1:]+"E1")
+	}
+	return out
+}
+
+// c10IntegerMidpoints feeds, for one pair of adjacent floats lo < hi whose midpoint is an integer, the midpoint
+// and its integer neighbourhood through `check`: m, m±1, m±2, and — because a wider intermediate format is the
+// classical source of double rounding — m ± h ± {0,1} where h is half a float64 ulp at m (when that is an integer
+// other than the above).  Every value as a plain integer with and without '-'; the fraction/exponent spellings of
+// c10Spellings for every value when `full` (thorough tier), else for m and m±1.
+func c10IntegerMidpoints(lo, hi float64, full bool, check func(lit string)) {
+	l, _ := new(big.Float).SetFloat64(lo).Int(nil)
+	h, _ := new(big.Float).SetFloat64(hi).Int(nil)
+	sum := new(big.Int).Add(l, h)
+	if sum.Bit(0) != 0 {
+		return // midpoint is not an integer
+	}
+	m := sum.Rsh(sum, 1)
+	if len(m.String()) > 40 {
+		return
+	}
+	deltas := []int64{0, 1, -1, 2, -2}
+	var ds []*big.Int
+	for _, d := range deltas {
+		ds = append(ds, big.NewInt(d))
+	}
+	// half a float64 ulp at m: 2^(bitlen(m)-54)
+	if bl := m.BitLen(); bl >= 56 {
+		half := new(big.Int).Lsh(bigOne, uint(bl-54))
+		for _, sgn := range []int64{1, -1} {
+			for _, d := range []int64{0, 1, -1} {
+				x := new(big.Int).Mul(half, big.NewInt(sgn))
+				ds = append(ds, x.Add(x, big.NewInt(d)))
+			}
+		}
+	}
+	for i, d := range ds {
+		x := new(big.Int).Add(m, d)
+		for _, v := range []*big.Int{x, new(big.Int).Neg(x)} {
+			sp := c10Spellings(v)
+			if !full && i >= 3 {
+				sp = sp[:1] // plain integer only
+			}
+			for _, s := range sp {
+				check(s)
+			}
+		}
+	}
 }
 
 // exact decimal expansion of a dyadic rational
@@ -1310,6 +1547,45 @@ func c10FloatParse(c *Ctx, b *c10Batch) {
 		e32 := uint32(127 - 60 + r.IntN(150))
 		g := math.Float32frombits(e32<<23 | r.Uint32()&(1<<23-1))
 		mid(float64(g), float64(math.Nextafter32(g, float32(math.Inf(1)))))
+	}
+	// integer midpoints: every binary exponent at which the midpoint of adjacent floats is an integer
+	// (float32: 2^24…2^127; float64: 2^53… up to 40-digit literals), several mantissas per exponent
+	// (first, last, all-ones boundary, random), spelled as plain integers and as fraction/exponent forms.
+	intMid := func(lit string) {
+		c10CheckFloatParse(c, b, lit)
+		c10CheckToken(c, b, lit)
+		c.Hit("floatparse/integer-midpoint-literal")
+	}
+	for e := uint32(127 + 24); e <= 254; e++ {
+		ms := []uint32{0, 1<<23 - 2}
+		if c.Thorough() {
+			ms = append(ms, 1, 1<<22, 0x2AAAAA, 0x555555)
+		}
+		for i := 0; i < c.N(1, 24); i++ {
+			ms = append(ms, r.Uint32()&(1<<23-1))
+		}
+		for _, mnt := range ms {
+			g := math.Float32frombits(e<<23 | mnt)
+			c10IntegerMidpoints(float64(g), float64(math.Nextafter32(g, float32(math.Inf(1)))), c.Thorough(), intMid)
+		}
+		// the last float32 of the binade and the first of the next (the ulp changes at the midpoint's upper end)
+		g := math.Float32frombits(e<<23 | (1<<23 - 1))
+		if up := math.Nextafter32(g, float32(math.Inf(1))); !math.IsInf(float64(up), 0) {
+			c10IntegerMidpoints(float64(g), float64(up), c.Thorough(), intMid)
+		}
+	}
+	for e := uint64(1023 + 53); e <= 1023+132; e++ {
+		ms := []uint64{0, 1<<52 - 1}
+		if c.Thorough() {
+			ms = append(ms, 1, 1<<52-2, 1<<51, 0x5555555555555&(1<<52-1))
+		}
+		for i := 0; i < c.N(1, 24); i++ {
+			ms = append(ms, r.Uint64()&(1<<52-1))
+		}
+		for _, mnt := range ms {
+			f := math.Float64frombits(e<<52 | mnt)
+			c10IntegerMidpoints(f, math.Nextafter(f, math.Inf(1)), c.Thorough(), intMid)
+		}
 	}
 	// shortest and 17-digit texts of random floats read back exactly
 	for i := 0; i < c.N(10000, 300000); i++ {
